@@ -18,8 +18,14 @@ theorem evalEndgame_mirror (b : Board) (h : b.WF = true) (c : Color) :
   unfold evalEndgame
   simp only [kingSq_mirror b hk, len_kingLegals_mirror b h, distance_flip, distFromEdge_flip]
 
+/-- the one fact about the numbers of the evaluation that colour symmetry needs: both "ahead" branches of `eval`
+use the same material limit (re-checked against the source on every run; piece values and weights are free) -/
+theorem limits_agree : Gen.EngineConsts.limitBlackAhead = Gen.EngineConsts.limitWhiteAhead := by decide
+
 theorem eval_mirror' (b : Board) (h : b.WF = true) : eval b.mirror = negScore (eval b) := by
   unfold eval
+  rw [limits_agree]
+  generalize Gen.EngineConsts.limitWhiteAhead = lim
   rw [mirror_half']
   by_cases hh : b.half ≥ 100
   · rw [if_pos hh, if_pos hh]; rfl
@@ -39,13 +45,13 @@ theorem eval_mirror' (b : Board) (h : b.WF = true) : eval b.mirror = negScore (e
     · have c1' : ¬ (k - w < 0) := by omega
       have c1'' : ¬ (k - w = 0) := by omega
       simp only [c1, c1', c1'', if_true, if_false]
-      by_cases c2 : k < 1800 <;> simp only [c2, if_true, if_false] <;> omega
+      by_cases c2 : k < lim <;> simp only [c2, if_true, if_false] <;> omega
     · by_cases c3 : w - k = 0
       · have c3'' : k - w = 0 := by omega
         simp only [c3, c3'', Int.lt_irrefl, if_true, if_false]
         omega
       · have c4 : k - w < 0 := by omega
         simp only [c1, c3, c4, if_true, if_false]
-        by_cases c2 : w < 1800 <;> simp only [c2, if_true, if_false] <;> omega
+        by_cases c2 : w < lim <;> simp only [c2, if_true, if_false] <;> omega
 
 end Chess.Proofs.BoardSym
